@@ -412,7 +412,7 @@ theorem C17_source_getitem_other (E : IEnc A) (s : Stream A) (v : MiniPy.Val) (h
     `C17_iter_normal_form`, in its order (`stagesOf`) -/
 theorem C17_source_iter (E : IEnc A) (s : Stream A) (stream : Nat) :
     runItem [("self.stream", .obj stream), ("self.ifilter", .olist (s.ifilter.map E.filt)),
-             ("self.imap", .olist (s.imap.map E.map)), ("self.islice", .tuple (s.islice.map sliceItem))]
+             ("self.imap", .olist (s.imap.map E.map)), ("self.islice", .tuple (s.islice.map isliceItem))]
         Gen.src_iterdata_iter "@ret"
       = .ok (.pipe stream ((stagesOf s).map (encStage E))) := src_iterdata_iter_eq E s stream
 
@@ -441,7 +441,7 @@ example :
     let E : IEnc TableVal.Val := ⟨fun _ => 7, fun _ => 8, fun _ => 3, fun _ => 5, 1, 2⟩
     (∃ s', chain litVal (mkIterData exSrc ⟨['s'], exAll, exAll⟩) exOps = .ok s' ∧
       (runItem [("self.stream", .obj 4), ("self.ifilter", .olist (s'.ifilter.map E.filt)),
-             ("self.imap", .olist (s'.imap.map E.map)), ("self.islice", .tuple (s'.islice.map sliceItem))]
+             ("self.imap", .olist (s'.imap.map E.map)), ("self.islice", .tuple (s'.islice.map isliceItem))]
           Gen.src_iterdata_iter "@ret"
         = .ok (.pipe 4 [.filt 7, .map 8, .map 8, .map 8, .map 8, .islice (some 1) none none]))) := by
   exact ⟨_, rfl, rfl⟩
